@@ -624,6 +624,9 @@ func (ab *rulesPair) adaptGroups(lb []string) {
 			} else {
 				// Name may have been changed before, to prevent name clashes.
 				lb[i] = gb.Name
+				// Group will be transferred with this name.
+				// Must not be mapped to some group on device later.
+				gb.nameOnDevice = gb.Name
 			}
 		}
 	}
